@@ -1,20 +1,30 @@
 ------------------------------- MODULE MC_Rms -------------------------------
 (***************************************************************************)
-(* Exhaustive check of Rms.tla: the implementation-shaped running sum over *)
-(* a RingBuffer.Fixed (layer 2) against the last-N-frames window (layer 1) *)
-(* on the exact-arithmetic domain.                                         *)
+(* Exhaustive check of layers 1 and 2 of the RMS model (RmsCore.tla, the   *)
+(* definitions Rms.tla instantiates over dyadics): the implementation-     *)
+(* shaped running sum over a RingBuffer.Fixed (layer 2) against the        *)
+(* last-N-frames window (layer 1) on the exact-arithmetic domain, here     *)
+(* with integer arithmetic (inputs in units of 1/4, squares of 1/16).      *)
 (*   window lengths 1..MaxWin, one channel, inputs k/4 for k in -2..2,       *)
 (*   every history of next / next_squared / current / reset / adaptor      *)
 (*   steps of any length (the reachable state set is finite and is         *)
 (*   explored completely; depth >= 3N+2 is not needed to close it).        *)
 (* Also writes the stimuli for the Rust harnesses (IOEnv.STIM_OUT).        *)
 (***************************************************************************)
-EXTENDS Rms, FiniteSets, TLC, Json, IOUtils, SequencesExt
+EXTENDS Naturals, Integers, Sequences, FiniteSets, TLC, Json, IOUtils, SequencesExt
 
-CONSTANTS MaxWin          \* window lengths 1..MaxWin
+CONSTANTS MaxWin        \* window lengths 1..MaxWin
 K == -2..2              \* inputs k/4
 Ch == 1
-In(k) == DNorm(DMk(k < 0, BFromNat(IF k < 0 THEN 0 - k ELSE k), -2))
+
+\* RmsCore over the integers: an input k stands for k/4, a square or a sum s for s/16 (exact)
+IAdd(a, b) == a + b
+ISub(a, b) == a - b
+ISq(a) == a * a
+INeg(a) == a < 0
+INSTANCE RmsCore WITH Zero <- 0, Add <- IAdd, Sub <- ISub, Sq <- ISq, IsNeg <- INeg
+
+In(k) == k
 Frame1(k) == [c \in 1..Ch |-> In(k)]
 
 VARIABLES n,            \* window length of this execution
@@ -25,11 +35,10 @@ VARIABLES n,            \* window length of this execution
                         \* (op = kind of step: "root" next/sig_next, "sq" next_squared/..., "cur", "reset")
 vars == << n, win, c1, l2, last >>
 
-NormFrame(x) == [c \in DOMAIN x |-> DNorm(x[c])]
-\* only sums need normalising: ring / window entries are squares of canonical inputs (odd * odd is odd) or DZero
-NormL2(s) == [rb |-> s.rb, sum |-> NormFrame(s.sum)]
-NormC1(s) == [win |-> s.win, sum |-> DNorm(s.sum)]
-NormOut(o) == [c \in DOMAIN o |-> [o[c] EXCEPT !.num = DNorm(o[c].num)]]
+\* integers are canonical: nothing to normalise
+NormL2(s) == s
+NormC1(s) == s
+NormOut(o) == o
 
 NoStep == [op |-> "init", out2 |-> << >>, out1 |-> << >>]
 Init == /\ n \in 1..MaxWin
@@ -66,26 +75,26 @@ RepInv == RB!FRepOK(l2.rb) /\ L2Len(l2) = n /\ Len(win) = n
 
 \* the running sum IS the sum of the squares of the last N frames, and the ring holds those squares
 SumIsWindow ==
-  /\ \A c \in 1..Ch : DEq(l2.sum[c], SumSq(win, c))
-  /\ \A i \in 1..n : \A c \in 1..Ch : DEq(RB!FAbs(l2.rb)[i][c], DSq(win[i][c]))
+  /\ \A c \in 1..Ch : l2.sum[c] = SumSq(win, c)
+  /\ \A i \in 1..n : \A c \in 1..Ch : RB!FAbs(l2.rb)[i][c] = ISq(win[i][c])
 \* the cached form used by the trace spec is layer 1
 CachedAgrees ==
-  /\ DEq(c1.sum, SumSq(win, 1))
-  /\ \A i \in 1..n : DEq(c1.win[i], DSq(win[i][1]))
+  /\ c1.sum = SumSq(win, 1)
+  /\ \A i \in 1..n : c1.win[i] = ISq(win[i][1])
 \* every output of layer 2 is the property's value (mean square / its root over exactly n frames)
 OutRefines == last.out2 = last.out1
 NonNeg ==
-  /\ \A c \in 1..Ch : DSign(l2.sum[c]) >= 0
-  /\ \A c \in DOMAIN last.out2 : DSign(last.out2[c].num) >= 0 /\ last.out2[c].den = n
+  /\ \A c \in 1..Ch : l2.sum[c] >= 0
+  /\ \A c \in DOMAIN last.out2 : last.out2[c].num >= 0 /\ last.out2[c].den = n
 \* on the exact domain the clamp never fires: sum + new - evicted is the new window sum, >= 0
 ClampIdle ==
   \A k \in K : \A c \in 1..Ch :
-    DSign(DSub(DAdd(l2.sum[c], DSq(In(k))), l2.rb.data[l2.rb.first + 1][c])) >= 0
+    l2.sum[c] + ISq(In(k)) - l2.rb.data[l2.rb.first + 1][c] >= 0
 \* reset restores the all-zero state: same outputs as a fresh detector from here on
 ResetInit ==
   last.op = "reset" =>
-    /\ \A c \in 1..Ch : DIsZero(l2.sum[c])
-    /\ \A i \in 1..n : \A c \in 1..Ch : DIsZero(RB!FAbs(l2.rb)[i][c])
+    /\ \A c \in 1..Ch : l2.sum[c] = 0
+    /\ \A i \in 1..n : \A c \in 1..Ch : RB!FAbs(l2.rb)[i][c] = 0
     /\ NormOut(L2Current(l2).out) = NormOut(L2Current(L2Init(n, Ch)).out)
     /\ \A k \in K : NormOut(L2Next(l2, Frame1(k)).out) = NormOut(L2Next(L2Init(n, Ch), Frame1(k)).out)
 
